@@ -30,6 +30,12 @@ Events (first element = tag):
     ('attach',  prefix, has_validator, t)                  handler h = index of the attach event
     ('interest', k, name, has_params, sig, digest_ok, verdict, t)   sig: 0 none | 1 DigestSha256 ok | 2 DigestSha256 bad
                                                            verdict: what the harness validator (if consulted) answers
+                                                           digest_ok: True | False (own digest, one bit flipped)
+                                                           | 'reuse:<k0>' WRONG: the digest component is the one of Interest k0
+                                                             of the same history (before or after it), the parameters differ
+                                                           | 'copy:<k0>'  RIGHT: the very packet of Interest k0 once more (a
+                                                             retransmission; name / has_params / sig must repeat k0's)
+                                                           non-empty ApplicationParameters are unique per run and per k
     ('arrive', k, name, has_params, sig, digest_ok, t)     an Interest whose application-supplied validator (if one is
                                                            consulted) SUSPENDS until ('ivdone', k, verdict, t); the
                                                            application may change its routes in between
@@ -100,6 +106,16 @@ def dies_v2(fe, v):
     """appv2, Data validator: an exception other than TimeoutError / CancelledError kills the task running
     PendingIntEntry.satisfy; nobody resolves the future: for the pipeline that validator never answers."""
     return fe == 'v2' and is_raise(v) and v not in RAISE_AS_TIMEOUT_V2
+
+
+def dok_true(dok):
+    """Is the parameters digest of an incoming Interest right (the digest_ok field of 'interest' / 'arrive')."""
+    if isinstance(dok, str):
+        return dok.startswith('copy:')
+    return bool(dok)
+
+
+_SALT = [0]        # ApplicationParameters are unique per World (= per case): nothing a case sends was seen by the process before
 
 
 def comp(k):
@@ -225,6 +241,9 @@ class World:
         self.ivfut = {}            # k -> future a suspended Interest validator is waiting on
         self.detach_errors = []
         self.raised = []           # the exception objects harness validators terminated with ('raise:<Class>')
+        _SALT[0] += 1
+        self.salt = _SALT[0]
+        self.history = []
         self.main = self.loop.create_task(self.app.main_loop())
         self.loop.settle()
 
@@ -493,17 +512,38 @@ class World:
                 self.app.int_validator = self.lib_int_validator
         return fn
 
-    def interest_wire(self, name, has_params, sig, digest_ok):
-        from ndn.encoding import make_interest, InterestParam
+    def interest_of(self, k0):
+        for ev in self.history:
+            if ev[0] in ('interest', 'arrive') and ev[1] == k0:
+                return ev
+        raise ValueError(f'no Interest {k0} in the history')
+
+    def interest_wire(self, name, has_params, sig, digest_ok, k=None):
+        from ndn.encoding import make_interest, InterestParam, parse_interest
         from ndn.security import DigestSha256Signer
-        n = [comp(k) for k in name]
+        if isinstance(digest_ok, str) and digest_ok.startswith('copy:'):
+            ev0 = self.interest_of(int(digest_ok[5:]))
+            return self.interest_wire(ev0[2], ev0[3], ev0[4], ev0[5], ev0[1])
+        n = [comp(c) for c in name]
         signer = DigestSha256Signer() if sig else None
         # has_params: False | True (non-empty) | 2 (ApplicationParameters present with zero length: still parameters)
-        app_param = (b'' if has_params == 2 else b'param') if has_params else (b'' if sig else None)
+        fresh = b'param' if k is None else b'param-%d-%d' % (self.salt, k)
+        app_param = (b'' if has_params == 2 else fresh) if has_params else (b'' if sig else None)
         w = bytearray(make_interest(n, InterestParam(nonce=9, lifetime=4000), app_param, signer=signer))
         if sig == 2:
             w[-1] ^= 0x55            # last byte of the signature value
-        if (has_params or sig) and not digest_ok:
+        if isinstance(digest_ok, str) and digest_ok.startswith('reuse:') and (has_params or sig):
+            # the ParametersSha256DigestComponent (last name component) of Interest k0 - a digest that IS right for k0's
+            # packet - on a packet with other parameters / name / signature elements
+            ev0 = self.interest_of(int(digest_ok[6:]))
+            nm0, _, _, _ = parse_interest(self.interest_wire(ev0[2], ev0[3], ev0[4], True, ev0[1]))
+            nm, _, _, _ = parse_interest(bytes(w))
+            last, last0 = bytes(nm[-1]), bytes(nm0[-1])
+            if len(last) != len(last0) or last == last0:
+                raise ValueError('harness: digest re-use needs two different packets with a digest component each')
+            pos = bytes(w).find(last)
+            w[pos:pos + len(last)] = last0
+        elif (has_params or sig) and not digest_ok:
             # corrupt the ParametersSha256DigestComponent (last name component, 32 bytes): flip its last byte
             from ndn.encoding import parse_interest
             nm, _, _, _ = parse_interest(bytes(w))
@@ -523,7 +563,7 @@ class World:
         return bytes(w)
 
     def ev_interest(self, k, name, has_params, sig, digest_ok, verdict, deferred=False):
-        wire = self.interest_wire(name, has_params, sig, digest_ok)
+        wire = self.interest_wire(name, has_params, sig, digest_ok, k)
         inner = self.recv(5, wire)
 
         def fn():
@@ -596,6 +636,7 @@ class World:
 
     def run(self, history):
         self.n_attach = 0
+        self.history = list(history)
         for ev in history:
             self.step(ev)
         nodes, entries = self.pit_sizes()
@@ -734,7 +775,7 @@ def m_event(fe, ev):
         return [0, [8, list(ev[1]), ev[2], ev[3]]]
     if tag == 'interest':
         _, k, name, hp, sig, dok, verdict, t = ev
-        return [0, [9, k, list(name), hp, sig, dok, m_verdict(fe, verdict), t]]
+        return [0, [9, k, list(name), hp, sig, dok_true(dok), m_verdict(fe, verdict), t]]
     if tag == 'setdefault':
         return [0, [10, ev[1], ev[2]]]
     raise ValueError(tag)
